@@ -169,3 +169,18 @@ package client
 //@   modifies *s
 //@   trusted_frame the session object only
 //@   ensures s.authTime == dep.AuthTime && s.endTime == dep.EndTime && s.renewTill == dep.RenewTill && s.tgt == tgt && s.sessionKey == dep.Key && s.sessionKeyExpiration == dep.KeyExpiration
+
+// C10: a session is left as it is (no renewal, no new login) only while more than a sixth of its lifetime remains,
+// measured at the clock reading the function takes while holding the session's lock.
+//@ ghost refreshCount int
+//@ func (*client.Client).refreshSession(cl, s) (r, err)
+//@   havocs refreshCount
+//@   ensures refreshCount - old(refreshCount) >= 1
+//@   trusted_ensures 0 ghost event counter: refreshCount is by definition the number of calls of refreshSession and realmLogin so far
+//@ func (*client.Client).realmLogin(cl, realm) (err)
+//@   havocs refreshCount
+//@   ensures refreshCount - old(refreshCount) >= 1
+//@   trusted_ensures 0 ghost event counter (see refreshSession)
+//@ func (*client.Client).ensureValidSession(cl, realm) (err)
+//@   havocs refreshCount
+//@   ensures err == nil && refreshCount == old(refreshCount) ==> s.endTime.Sub(now#1) > s.endTime.Sub(s.authTime) / 6
